@@ -1,6 +1,6 @@
 """C10 / C02 / C01 glue — BufferedOutput step, ByteWriter over a fake file system, chunk-size check, and the
 record -> segment -> visible record -> buffer -> writer composition on the real ``write_logical_records``."""
-from vf.harness.common import THOROUGH, Rope, flat, lits, RepC, pad_info
+from vf.harness.common import THOROUGH, Rope, flat, lits, RepC, pad_info, SHARD_I, SHARD_N
 
 from dliswriter.logical_record.core.logical_record.logical_record_bytes import LogicalRecordBytes
 from dliswriter.logical_record.core.logical_record.logical_record import LogicalRecord
@@ -214,7 +214,7 @@ def glue_check(vrl, L1, L2, chunk, use_default_chunk):
     w._sul_written = True
     recs = [StubRecord('r1', L1, 0, True), StubRecord('r2', L2, 1, False)]
     w.write_logical_records(recs, None if use_default_chunk else chunk)
-    eff_chunk = 4294967296 if use_default_chunk else chunk
+    eff_chunk = 4294967296 if use_default_chunk else (int(chunk) if type(chunk) is float else chunk)
     toks = merged_sources([r for (r, _sz) in mem.writes])
     # flush boundaries (absolute positions) and sizes
     cuts = []
@@ -325,6 +325,39 @@ def reach_glue(vrl: int, L1: int, L2: int, chunk: int) -> int:
     post: _ != 0
     """
     return glue_check(vrl, L1, L2, chunk, False)
+
+
+FLOAT_CHUNKS = [64.0, 1048576.0]
+GF_STEP = 2 if THOROUGH else 4
+GF_N = 15 if THOROUGH else 8
+
+try:
+    from crosshair import realize as _realize
+except ImportError:
+    def _realize(x):
+        return x
+
+
+def ob_glue_float(vrl: int, L1: int, L2: int, k: int) -> int:
+    """
+    An accepted chunk size may be a float with zero decimal part: same obligations as ob_glue, chunk a concrete float
+    (symbolic floats are not decided by the engine), record length and body lengths symbolic.
+    pre: GLUE_VRL_LO <= vrl <= 48 and vrl % 2 == 0 and (SHARD_N == 1 or vrl == 20 + GF_STEP * (SHARD_I % GF_N))
+    pre: 1 <= L1 <= vrl + 12 and 1 <= L2 <= vrl + GLUE_L2_EXTRA
+    pre: 0 <= k < 2
+    post: _ == 0
+    """
+    return glue_check(_realize(vrl), L1, L2, 64.0 if _realize(k) == 0 else 1048576.0, False)
+
+
+def reach_glue_float(vrl: int, L1: int, L2: int, k: int) -> int:
+    """
+    pre: GLUE_VRL_LO <= vrl <= 48 and vrl % 2 == 0
+    pre: 1 <= L1 <= vrl + 12 and 1 <= L2 <= vrl + GLUE_L2_EXTRA
+    pre: 0 <= k < 2
+    post: _ != 0
+    """
+    return glue_check(_realize(vrl), L1, L2, 64.0 if _realize(k) == 0 else 1048576.0, False)
 
 
 def wit_glue_multi(vrl: int, L1: int, L2: int, chunk: int) -> bool:
@@ -448,7 +481,7 @@ class RecOutput:
             self.adds.append('add-after-flush')
         self.adds.append((bts, size))
 
-    def pass_bytes_to_writer(self):
+    def pass_bytes_to_writer(self, *a, **k):
         self.flushed = self.flushed + 1
 
 
